@@ -5,6 +5,11 @@
 //!   script: `,`-joined steps
 //!     c<k>.<src ip>  connect connection k from that source address
 //!     q<k>           send a read request on k (tcp only) and wait for the reply
+//!     P<k>.<n>       write n pipelined requests (read 125 holding registers, tx ids 0..n-1) on k
+//!                    WITHOUT reading until the server has stopped making progress, then read the
+//!                    replies: `n=<well-formed replies with consecutive tx ids>,<hex of the first>` | closed
+//!     B<k1>/<k2>/…   close all these connections at the same instant (a burst of session ends)
+//!     W<n>.<src ip>  churn: n times connect from that address and close at once (no output)
 //!     g<k>           send garbage on k
 //!     x<k>           close k on the client side
 //!     p<k>           probe k: still open?
@@ -15,12 +20,14 @@ use rodbus::server::*;
 use rodbus::*;
 use std::collections::HashMap;
 use std::net::{IpAddr, SocketAddr};
-use std::sync::{Arc, Mutex};
-use std::time::Duration;
-use tokio::io::{AsyncReadExt, AsyncWriteExt};
+use std::sync::atomic::{AtomicUsize, Ordering};
+use std::sync::Arc;
+use std::time::{Duration, Instant};
+use tokio::io::{AsyncReadExt, AsyncWriteExt, Interest};
 use tokio::net::{TcpSocket, TcpStream};
 
 const SETTLE_MS: u64 = 60;
+const CHURN_YIELDS: usize = 3;
 
 fn parse_filter(tok: &str) -> AddressFilter {
     match &tok[0..1] {
@@ -39,6 +46,26 @@ fn parse_filter(tok: &str) -> AddressFilter {
                 .parse::<WildcardIPv4>()
                 .expect("generator only emits valid wildcards here"),
         ),
+    }
+}
+
+/// The application of the `net` suite: 125 holding registers of unit 1 (`reg_val(1, addr)`, the
+/// segment `s2.0.125.1` of the point database), every call counted.  (No call log: a pipelined
+/// step makes millions of calls.)
+struct NetHandler {
+    calls: Arc<AtomicUsize>,
+}
+
+const NET_REGS: u16 = 125;
+
+impl RequestHandler for NetHandler {
+    fn read_holding_register(&self, address: u16) -> Result<u16, ExceptionCode> {
+        self.calls.fetch_add(1, Ordering::Relaxed);
+        if address < NET_REGS {
+            Ok(reg_val(1, address as u32) as u16)
+        } else {
+            Err(ExceptionCode::IllegalDataAddress)
+        }
     }
 }
 
@@ -65,6 +92,126 @@ async fn probe(s: &mut TcpStream) -> &'static str {
     }
 }
 
+const PIPE_REQ: usize = 12;
+const PIPE_REPLY: usize = 9 + 2 * NET_REGS as usize;
+
+/// `P<k>.<n>`: n requests back to back, nothing read until the server has stopped making
+/// progress (it has answered everything, or it is blocked on a full send buffer: the handler's
+/// call counter stands still and nothing more can be written), then everything is read while the
+/// rest is written.  Readiness-driven non-blocking I/O: the harness itself can never dead-lock.
+async fn pipeline(s: &mut TcpStream, cnt: usize, calls: &AtomicUsize) -> String {
+    let mut reqs = Vec::with_capacity(cnt * PIPE_REQ);
+    for i in 0..cnt {
+        let t = i as u16;
+        reqs.extend_from_slice(&[(t >> 8) as u8, t as u8, 0, 0, 0, 6, 1, 3, 0, 0, 0, NET_REGS as u8]);
+    }
+    let mut off = 0usize;
+    let mut dead = false;
+    // phase 1: write only
+    let start = Instant::now();
+    let mut last_progress = Instant::now();
+    let mut last_calls = calls.load(Ordering::Relaxed);
+    while !dead && start.elapsed() < Duration::from_millis(2500) {
+        if off < reqs.len() {
+            match tokio::time::timeout(Duration::from_millis(20), s.writable()).await {
+                Err(_) => {}
+                Ok(Err(_)) => dead = true,
+                Ok(Ok(())) => match s.try_write(&reqs[off..]) {
+                    Ok(n) => {
+                        off += n;
+                        last_progress = Instant::now();
+                        // let the server run
+                        tokio::task::yield_now().await;
+                    }
+                    Err(e) if e.kind() == std::io::ErrorKind::WouldBlock => {}
+                    Err(_) => dead = true,
+                },
+            }
+        } else {
+            tokio::time::sleep(Duration::from_millis(10)).await;
+        }
+        let c = calls.load(Ordering::Relaxed);
+        if c != last_calls {
+            last_calls = c;
+            last_progress = Instant::now();
+        }
+        if last_progress.elapsed() >= Duration::from_millis(120) {
+            break;
+        }
+    }
+    // phase 2: read (and write what is left)
+    let total = cnt * PIPE_REPLY;
+    let mut got: Vec<u8> = Vec::with_capacity(total);
+    let mut tmp = vec![0u8; 1 << 16];
+    let mut ended = false;
+    while got.len() < total {
+        let interest = if off < reqs.len() && !dead {
+            Interest::READABLE | Interest::WRITABLE
+        } else {
+            Interest::READABLE
+        };
+        let ready = match tokio::time::timeout(Duration::from_millis(500), s.ready(interest)).await {
+            Err(_) => break,
+            Ok(Err(_)) => {
+                ended = true;
+                break;
+            }
+            Ok(Ok(r)) => r,
+        };
+        if ready.is_readable() || ready.is_read_closed() {
+            match s.try_read(&mut tmp) {
+                Ok(n) if n > 0 => got.extend_from_slice(&tmp[..n]),
+                Err(e) if e.kind() == std::io::ErrorKind::WouldBlock => {}
+                _ => {
+                    ended = true;
+                    break;
+                }
+            }
+        }
+        if ready.is_writable() && off < reqs.len() {
+            match s.try_write(&reqs[off..]) {
+                Ok(n) => off += n,
+                Err(e) if e.kind() == std::io::ErrorKind::WouldBlock => {}
+                Err(_) => dead = true,
+            }
+        }
+    }
+    if got.len() < PIPE_REPLY && ended {
+        // not even one reply, then EOF / reset (like `q`)
+        return "closed".to_string();
+    }
+    // replies 0, 1, 2, …: reply i is the first reply with transaction id i
+    let first: Vec<u8> = got[..got.len().min(PIPE_REPLY)].to_vec();
+    let mut good = 0usize;
+    while first.len() == PIPE_REPLY && (good + 1) * PIPE_REPLY <= got.len() {
+        let r = &got[good * PIPE_REPLY..(good + 1) * PIPE_REPLY];
+        let t = good as u16;
+        if r[0] == (t >> 8) as u8 && r[1] == t as u8 && r[2..] == first[2..] {
+            good += 1;
+        } else {
+            break;
+        }
+    }
+    format!("n={},{}", good, hex(&first))
+}
+
+fn set_linger_zero(s: &TcpStream) {
+    use std::os::fd::AsRawFd;
+    let l = libc::linger {
+        l_onoff: 1,
+        l_linger: 0,
+    };
+    unsafe {
+        libc::setsockopt(
+            s.as_raw_fd(),
+            libc::SOL_SOCKET,
+            libc::SO_LINGER,
+            &l as *const libc::linger as *const libc::c_void,
+            std::mem::size_of::<libc::linger>() as libc::socklen_t,
+        );
+    }
+}
+
 fn tls_config() -> TlsServerConfig {
     let d = std::path::Path::new("/repo/certs/self_signed");
     TlsServerConfig::new(
@@ -83,17 +230,9 @@ pub async fn run_net(tok: &[&str]) -> String {
     let variant = tok[1].trim_end_matches('6');
     let max: usize = tok[2][1..].parse().unwrap();
     let filter = parse_filter(tok[3]);
-    let log: Log = Arc::new(Mutex::new(Vec::new()));
-    let mut map: ServerHandlerMap<TestHandler> = ServerHandlerMap::new();
-    map.add(
-        UnitId::new(1),
-        TestHandler {
-            unit: 1,
-            points: Points::parse("s2.0.10.1"),
-            log: log.clone(),
-        }
-        .wrap(),
-    );
+    let calls = Arc::new(AtomicUsize::new(0));
+    let mut map: ServerHandlerMap<NetHandler> = ServerHandlerMap::new();
+    map.add(UnitId::new(1), NetHandler { calls: calls.clone() }.wrap());
     let bind_ip: IpAddr = if v6 { "::1".parse().unwrap() } else { "127.0.0.1".parse().unwrap() };
     let listener = match tokio::net::TcpListener::bind(SocketAddr::new(bind_ip, 0)).await {
         Ok(l) => l,
@@ -118,6 +257,7 @@ pub async fn run_net(tok: &[&str]) -> String {
     let mut conns: HashMap<String, TcpStream> = HashMap::new();
     let mut out: Vec<String> = Vec::new();
     let mut tx: u16 = 0;
+    let mut half: HashMap<String, u16> = HashMap::new();
     if tok[4] != "-" {
         for step in tok[4].split(',') {
             let (op, rest) = step.split_at(1);
@@ -133,13 +273,29 @@ pub async fn run_net(tok: &[&str]) -> String {
                         }
                     }
                 }
-                "q" => {
+                "h" => {
+                    // the first five bytes of a request; `t<k>` sends the rest (a request cut in two
+                    // segments, with other steps - a decode level change - in between)
+                    if let Some(s) = conns.get_mut(rest) {
+                        tx = tx.wrapping_add(1);
+                        half.insert(rest.to_string(), tx);
+                        let _ = s.write_all(&[(tx >> 8) as u8, tx as u8, 0, 0, 0]).await;
+                        let _ = s.flush().await;
+                        tokio::time::sleep(Duration::from_millis(SETTLE_MS)).await;
+                    }
+                }
+                "q" | "t" => {
                     let r = match conns.get_mut(rest) {
                         None => "noconn".to_string(),
                         Some(s) => {
-                            tx = tx.wrapping_add(1);
-                            let req = [(tx >> 8) as u8, tx as u8, 0, 0, 0, 6, 1, 3, 0, 0, 0, 1];
-                            if s.write_all(&req).await.is_err() {
+                            if op == "q" {
+                                tx = tx.wrapping_add(1);
+                            }
+                            // `t`: the transaction id announced by the matching `h`
+                            let tx = if op == "q" { tx } else { half.remove(rest).unwrap_or(tx) };
+                            let full = [(tx >> 8) as u8, tx as u8, 0, 0, 0, 6, 1, 3, 0, 0, 0, 1];
+                            let req = if op == "q" { &full[..] } else { &full[5..] };
+                            if s.write_all(req).await.is_err() {
                                 "closed".to_string()
                             } else {
                                 let mut buf = [0u8; 11];
@@ -163,6 +319,45 @@ pub async fn run_net(tok: &[&str]) -> String {
                         }
                     };
                     out.push(format!("q{rest}:{r}"));
+                }
+                "P" => {
+                    let (k, cnt) = rest.split_once('.').unwrap();
+                    let r = match conns.get_mut(k) {
+                        None => "noconn".to_string(),
+                        Some(s) => pipeline(s, cnt.parse().unwrap(), &calls).await,
+                    };
+                    out.push(format!("P{k}:{r}"));
+                }
+                "B" => {
+                    // taken out of the table first, then dropped (closed) in one go
+                    let gone: Vec<TcpStream> = rest.split('/').filter_map(|k| conns.remove(k)).collect();
+                    drop(gone);
+                    tokio::time::sleep(Duration::from_millis(SETTLE_MS)).await;
+                }
+                "W" => {
+                    let (cnt, src) = rest.split_once('.').unwrap();
+                    let cnt: usize = cnt.parse().unwrap();
+                    let src: IpAddr = src.parse().unwrap();
+                    for i in 0..cnt {
+                        match connect_from(src, addr).await {
+                            // nobody listens (or the source address is unusable): the rest would fail alike
+                            Err(_) => break,
+                            Ok(s) => {
+                                // closed with a reset: no TIME_WAIT socket stays behind, the
+                                // ephemeral ports do not run out
+                                set_linger_zero(&s);
+                                drop(s);
+                            }
+                        }
+                        // let the server see the close before the next peer arrives (its tracker
+                        // must not fill up with sessions that have ended already): one turn of
+                        // the I/O driver each for accept + session start, session end, removal
+                        let _ = i;
+                        for _ in 0..CHURN_YIELDS {
+                            tokio::task::yield_now().await;
+                        }
+                    }
+                    tokio::time::sleep(Duration::from_millis(SETTLE_MS)).await;
                 }
                 "g" => {
                     let r = match conns.get_mut(rest) {
@@ -228,7 +423,7 @@ pub async fn run_net(tok: &[&str]) -> String {
     if !join.is_finished() {
         join.abort();
     }
-    let calls = log.lock().unwrap().len();
+    let calls = calls.load(Ordering::Relaxed);
     format!(
         "{} | {} calls={}",
         if out.is_empty() { "-".into() } else { out.join(";") },
